@@ -33,6 +33,12 @@ pub static mut TABLE: [Option<Frame>; JCAP] = [
     None, None, None, None, None, None, None, None,
 ];
 pub static mut JN: usize = 0;
+/// per-harness concrete bound on table entries (set together with fjall::set_limit): the lookup
+/// case split has JLIMIT branches instead of JCAP
+pub static mut JLIMIT: usize = JCAP;
+pub fn set_limit(n: usize) {
+    unsafe { JLIMIT = if n < JCAP { n } else { JCAP } }
+}
 
 #[allow(static_mut_refs)]
 pub fn reset() {
@@ -43,6 +49,7 @@ pub fn reset() {
             i += 1;
         }
         JN = 0;
+        JLIMIT = JCAP;
     }
 }
 
@@ -72,13 +79,13 @@ impl<T: AsFrame> AsFrame for &T {
 #[allow(static_mut_refs)]
 pub fn to_vec<T: AsFrame>(v: &T) -> Result<Vec<u8>, Error> {
     unsafe {
-        if JN >= JCAP {
+        if JN >= JLIMIT {
             crate::env::nd::bound_exceeded("frame codec table");
             return Err(Error);
         }
         let mut item = Some(v.as_frame().clone());
         let mut j = 0;
-        while j < JCAP {
+        while j < JLIMIT {
             if j == JN {
                 // no drop glue for the (empty) previous occupant
                 core::mem::forget(core::mem::replace(&mut TABLE[j], item.take()));
@@ -119,14 +126,28 @@ pub fn from_slice<T: FromFrame>(b: &[u8]) -> Result<T, Error> {
         }
         let i = b[0] as usize;
         let mut j = 0;
-        while j + 1 < JCAP {
-            if i == j {
+        // entries >= JN do not exist: the last branch is the default, so JLIMIT-1 comparisons
+        let last = if JN > 0 { JN - 1 } else { 0 };
+        while j + 1 < JLIMIT {
+            if i == j && j < last {
                 return Ok(T::from_frame(slot(j)));
             }
             j += 1;
         }
-        Ok(T::from_frame(slot(JCAP - 1)))
+        Ok(T::from_frame(slot_sym(last)))
     }
+}
+/// `last` may be symbolic after a merge: pick by case split
+#[allow(static_mut_refs)]
+unsafe fn slot_sym(last: usize) -> &'static Frame {
+    let mut j = 0;
+    while j + 1 < JLIMIT {
+        if j == last {
+            return slot(j);
+        }
+        j += 1;
+    }
+    slot(JLIMIT - 1)
 }
 #[allow(static_mut_refs)]
 unsafe fn slot(j: usize) -> &'static Frame {
